@@ -67,7 +67,7 @@ Theorem sstep_ledger : forall (w w' : wN) op o, ledger_inv w -> sop_ok op -> sst
   ledger_inv w' /\ forall k, ~ In k (sidx op) -> ob w' k = ob w k.
 Proof.
   intros w w' op o Hl Hok H.
-  destruct op as [i|i l|i l|i l|i l|i j|i j|i j|i j|i l|i off|i j|i j|i l|i c|i l|i j k0 mv|i j l|i j|i j|i l|i|i l|i|i|i n|i idx|i c idx];
+  destruct op as [i|i l|i l|i l|i l|i j|i j|i j|i j|i l|i off|i j|i j|i l|i c|i l|i j k0 mv|i j l|i j|i j|i l|i|i l|i|i|i n|i idx|i c idx|i|i|i|i];
     cbn [sstep sop_ok] in *.
   - (* SDefault *)
     prim_inv. split; [|frame_tac]. apply ledger_set; [assumption|next_rw; lia|al_solve Hl|fresh_new Hl].
@@ -196,4 +196,13 @@ Proof.
     apply wr_range_inv in E1 as (Hn1 & Ha1).
     assert (Hl1 : ledger_inv (mkW h1 (ob w))) by (apply (ledger_inv_ext w); cbn [hp ob]; auto).
     destruct (s_write_ledger _ w2 i _ _ Hl1 E2) as (Hl2 & Hf2). split; [assumption|]. cbn [ob] in Hf2. frame_tac.
+  - (* SIter: read only *)
+    apply bind_ok in H as (c0 & _ & H). same_world H Hl.
+  - (* SLast: read only *)
+    apply bind_ok in H as (c0 & _ & H). same_world H Hl.
+  - (* SIsEmpty *)
+    same_world H Hl.
+  - (* SStreamOut: read only *)
+    destruct (blk (ob w i)); [|same_world H Hl].
+    apply bind_ok in H as (c0 & _ & H). same_world H Hl.
 Qed.
